@@ -1010,12 +1010,14 @@ def _expand_when_stmt_element(
         # Else group
         new_elements.append(Label(name=else_label_name))
         new_elements.append(WaitForHeads(number=len(group_label_names)))
+        new_elements.append(MergeHeads(fork_uid=cases_fork_uid))
         if element.else_elements is None:
             new_elements.append(Abort())
         else:
             new_elements.append(Goto(label=else_statement_label_name))
 
             new_elements.append(Label(name=else_statement_label_name))
+            new_elements.append(EndScope(name=scope_label_name))
             new_elements.extend(expand_elements(element.else_elements, flow_configs))
 
         # End label
